@@ -36,18 +36,20 @@ def rename_map(names, kind, rng):
     return {a: new[perm[i]] for i, a in enumerate(srt)}
 
 
-def make(est, fi, tol=1e-9):
+def make(est, fi, tol=1e-9, warm=False):
     import skglm
     from skglm.datafits import Logistic, QuadraticSVC
     from skglm.penalties import L1, IndicatorBox
     from skglm.solvers import ProxNewton, AndersonCD
     if est == "SparseLogisticRegression":
-        return skglm.SparseLogisticRegression(alpha=0.01, fit_intercept=fi, tol=tol)
+        return skglm.SparseLogisticRegression(alpha=0.01, fit_intercept=fi, tol=tol, warm_start=warm)
     if est == "LinearSVC":
-        return skglm.LinearSVC(C=0.5, tol=tol)
+        return skglm.LinearSVC(C=0.5, tol=tol, warm_start=warm)
     if est == "GLE_Logistic":
-        return skglm.GeneralizedLinearEstimator(Logistic(), L1(0.01), ProxNewton(fit_intercept=fi, tol=tol))
-    return skglm.GeneralizedLinearEstimator(QuadraticSVC(), IndicatorBox(0.5), AndersonCD(fit_intercept=False, tol=tol))
+        return skglm.GeneralizedLinearEstimator(Logistic(), L1(0.01), ProxNewton(fit_intercept=fi, tol=tol,
+                                                                                 warm_start=warm))
+    return skglm.GeneralizedLinearEstimator(QuadraticSVC(), IndicatorBox(0.5),
+                                            AndersonCD(fit_intercept=False, tol=tol, warm_start=warm))
 
 
 def run_one(item, seed, tid):
@@ -65,8 +67,10 @@ def run_one(item, seed, tid):
     f = rel.Facts(tid, dict(sc=sc, effect=effect, seed=seed))
     fi = bool(sc["fit_intercept"])
 
+    warm = sc.get("refit") == "same_object_warm"
+
     def fit(yy):
-        est = make(sc["est"], fi)
+        est = make(sc["est"], fi, warm=warm)
         with warnings.catch_warnings():
             warnings.simplefilter("ignore")
             est.fit(Xs, yy)
@@ -84,8 +88,8 @@ def run_one(item, seed, tid):
     f.meta["exc"] = None
     classes = list(est.classes_)
     f.flag("classes_sorted", classes == sorted(set(y.tolist())))
-    coef = np.atleast_2d(np.asarray(est.coef_, dtype=float))
-    icpt = np.ravel(np.asarray(est.intercept_, dtype=float))
+    coef = np.atleast_2d(np.array(est.coef_, dtype=float, copy=True))
+    icpt = np.ravel(np.array(est.intercept_, dtype=float, copy=True))
     if icpt.size == 1 and coef.shape[0] > 1:
         icpt = np.repeat(icpt, coef.shape[0])
     dec_lin = X @ coef.T + icpt                       # (N, rows)
@@ -116,6 +120,16 @@ def run_one(item, seed, tid):
             if pr.shape == (N, len(classes)):
                 f.le("proba_sum", float(np.max(np.abs(pr.sum(axis=1) - 1.0))), 1e-9)
                 f.flag("proba_range", bool(np.all(pr >= 0) and np.all(pr <= 1)))
+                if len(classes) > 2:
+                    # one-vs-rest: within a sample the probabilities are an increasing function of the decision values
+                    srt = np.argsort(dec_lin, axis=1)
+                    dsrt = np.take_along_axis(dec_lin, srt, axis=1)
+                    psrt = np.take_along_axis(pr, srt, axis=1)
+                    strict = np.diff(dsrt, axis=1) > 1e-9
+                    f.flag("proba_monotone", bool(np.all(np.diff(psrt, axis=1)[strict] > -1e-12)))
+                    top_gap = (dsrt[:, -1] - dsrt[:, -2]) > 1e-9
+                    f.flag("proba_argmax_is_prediction",
+                           bool(np.all(pr.argmax(axis=1)[top_gap] == dec_lin.argmax(axis=1)[top_gap])))
                 if len(classes) == 2:
                     o = np.argsort(dec_lin[:, 0])
                     f.flag("proba_monotone", bool(np.all(np.diff(pr[o, 1]) >= -1e-12)))
@@ -145,7 +159,15 @@ def run_one(item, seed, tid):
         mp = rename_map(names, sc["rename"], rng)
         y2 = np.array([mp[a] for a in y.tolist()])
         try:
-            e2 = fit(y2)
+            with warnings.catch_warnings():
+                warnings.simplefilter("ignore")
+                p1_before = np.asarray(est.predict(Xs))
+            if warm:
+                with warnings.catch_warnings():
+                    warnings.simplefilter("ignore")
+                    e2 = est.fit(Xs, y2)               # the same object, warm-started from the previous model
+            else:
+                e2 = fit(y2)
             c2 = np.atleast_2d(np.asarray(e2.coef_, dtype=float))
             i2 = np.ravel(np.asarray(e2.intercept_, dtype=float))
             if i2.size == 1 and c2.shape[0] > 1:
@@ -167,7 +189,7 @@ def run_one(item, seed, tid):
             f.le("rename", err, 1e-5 * max(1.0, float(np.abs(dec_lin).max())))
             with warnings.catch_warnings():
                 warnings.simplefilter("ignore")
-                p1 = est.predict(Xs)
+                p1 = p1_before
                 p2 = e2.predict(Xs)
             if np.shape(p1) == (N,) and np.shape(p2) == (N,):
                 margin = np.abs(dec_lin[:, 0]) > 1e-6 if len(classes) == 2 else \
@@ -205,12 +227,12 @@ def run(prop, tier, seed):
         keep, seen = [], set()
         for i in idx:
             s = items[i]["sc"]
-            k1 = (s["est"], s["k"] > 2, s["rename"])
+            k1 = (s["est"], s["k"] > 2, s["rename"], s.get("refit"), s["alphabet"] if s.get("refit") != "fresh" else "")
             if k1 not in seen:
                 seen.add(k1)
                 keep.append(items[i])
         for i in idx:
-            if len(keep) >= 70:
+            if len(keep) >= 110:
                 break
             if items[i] not in keep:
                 keep.append(items[i])
